@@ -72,6 +72,14 @@ CORPUS = [
     ("(),()", "() , ()", "spacing"),
     ("((())),((()))", "((())),((()))", "spacing"),
     ("Red,(Blue,(Green,(Red,Blue))),(((Blue,Red),Green),Blue)", "(((Red,Blue),Green),Blue),Red,(Blue,(Green,(Blue,Red)))", "order"),
+    # seed C04-f: a malformed Duration/Delay group written before / after a legal delayed Onset/Offset/Inset group
+    ("(Duration/3 s, Blue), (Delay/1 s, Onset, Def/MyDef)", "(Delay/1 s, Onset, Def/MyDef), (Duration/3 s, Blue)", "order"),
+    ("(Delay/1 s, Onset, Def/MyDef), (Duration/3 s, Blue)", "(Duration/3 s, Blue), (Delay/1 s, Onset, Def/MyDef)", "order"),
+    ("(Offset, Delay/2 s, Def/MyDef), (Delay/3 s, (Blue), (Green))", "(Delay/3 s, (Blue), (Green)), (Offset, Delay/2 s, Def/MyDef)", "order"),
+    ("(Delay/1 s, Inset, Def/MyDef), Green, (Duration/3 s, Delay/1 s, Blue, (Red))",
+     "(Duration/3 s, Delay/1 s, Blue, (Red)), Green, (Delay/1 s, Inset, Def/MyDef)", "order"),
+    ("(Duration/3 s), (Delay/2 s, Def/Mydef, Offset), (Duration/3 s, (Blue), (Red))",
+     "(Delay/2 s, Def/Mydef, Offset), (Duration/3 s, (Blue), (Red)), (Duration/3 s)", "order"),
 ]
 
 
@@ -287,6 +295,9 @@ def gen_annotation(rng, v):
         top.insert(rng.randrange(len(top) + 1), grp)
         if rng.random() < 0.4:
             top.insert(rng.randrange(len(top) + 1), ("g", [("t", comps, tail), ("t", rng.choice(v.plain), "")]))
+    if rng.random() < 0.06:   # several top-level Duration/Delay groups: well formed, malformed, delayed Onset/Offset/Inset
+        for g in gen_temporal_mix(rng, v, rng.choice([2, 2, 3]))[0]:
+            top.insert(rng.randrange(len(top) + 1), g)
     r = rng.random()
     if r < 0.2:      # a top-level-only group at top level and a copy of it nested
         plant_top_level_copies(rng, v, top)
@@ -328,6 +339,89 @@ def gen_top_level_group(rng, v):
     else:
         kids = [("t", SP["Delay"], "/1 s"), ("t", SP["Onset"], ""), ("t", SP["Def"], dname), inner]
     return ("g", kids)
+
+
+TIMES = ["/1 s", "/2 s", "/3 s", "/4.5 s", "/250 ms", "/0.5 s"]
+DEF_TAILS = ["/Mydef", "/Mydef", "/MyDef", "/Myval/3", "/Myval/abc"]
+
+
+def gen_temporal_member(rng, v, cls):
+    """one top-level Duration/Delay group.  cls: 'ok' = well formed for the Duration/Delay rule (the tag(s) and exactly one
+    inner group), 'bad' = malformed for it (an extra tag, or zero / two inner groups), 'delayed' = a legal Delay +
+    Onset/Offset/Inset + Def group (the Duration/Delay rule does not apply to it; needs a declared definition)"""
+    def small():
+        return ("t", rng.choice(POOL_SMALL), "")
+
+    def inner():
+        return ("g", [small()] + ([("t", rng.choice(v.plain), "")] if rng.random() < 0.4 else []))
+    dur = ("t", SP["Duration"], rng.choice(TIMES))
+    dly = ("t", SP["Delay"], rng.choice(TIMES))
+    lead = rng.choice([[dur], [dur], [dly], [dur, dly]])
+    if cls == "ok":
+        kids = lead + [inner()]
+    elif cls == "bad":
+        k = rng.randrange(6)
+        if k == 0:
+            kids = lead + [small()]                                  # (Duration/3 s, Blue)
+        elif k == 1:
+            kids = list(lead)                                        # (Duration/3 s)
+        elif k == 2:
+            kids = lead + [inner(), inner()]                         # (Duration/3 s, (Blue), (Red))
+        elif k == 3:
+            kids = [dly, dur, small(), inner()]                      # (Delay/1 s, Duration/2 s, Green, (Blue))
+        elif k == 4:
+            kids = lead + [small(), inner()]                         # (Duration/3 s, Green, (Blue))
+        else:
+            kids = lead + [small(), ("t", rng.choice(v.plain), "")]  # two extra tags
+    else:
+        d = ("t", SP["Def"], rng.choice(DEF_TAILS))
+        k = rng.randrange(3)
+        if k == 0:
+            kids = [dly, ("t", SP["Onset"], ""), d] + ([inner()] if rng.random() < 0.4 else [])
+        elif k == 1:
+            kids = [dly, d, ("t", SP["Offset"], "")]
+        else:
+            kids = [dly, ("t", SP["Inset"], ""), d] + ([inner()] if rng.random() < 0.6 else [])
+    if rng.random() < 0.4:
+        rng.shuffle(kids)
+    return ("g", kids)
+
+
+def gen_temporal_mix(rng, v, n=None):
+    """(members, their classes): 2-4 top-level Duration/Delay groups; in three of four at least one legal delayed
+    Onset/Offset/Inset group together with at least one group malformed for the Duration/Delay rule"""
+    n = n or rng.choice([2, 2, 3, 3, 3, 4])
+    if rng.random() < 0.75:
+        classes = ["delayed", "bad"] + [rng.choice(["ok", "bad", "delayed", "ok"]) for _ in range(n - 2)]
+    else:
+        classes = [rng.choice(["ok", "bad", "delayed"]) for _ in range(n)]
+    rng.shuffle(classes)
+    return [gen_temporal_member(rng, v, c) for c in classes], classes
+
+
+def gen_temporal_annotation(rng, v):
+    """(top, indices of the Duration/Delay groups in it): the mix plus 0-2 other conforming members"""
+    members, classes = gen_temporal_mix(rng, v)
+    top = list(members)
+    for _ in range(rng.choice([0, 0, 1, 1, 2])):
+        filler = ("t", rng.choice(POOL_SMALL + [rng.choice(v.plain)]), "") if rng.random() < 0.6 else \
+            ("g", [("t", rng.choice(POOL_SMALL), ""), ("t", rng.choice(v.plain), "")])
+        top.insert(rng.randrange(len(top) + 1), filler)
+    idx = [i for i, n in enumerate(top) if any(n is m for m in members)]
+    return top, idx, classes
+
+
+def top_level_permutations(top, idx):
+    """every other written order of the members at positions `idx` (the rest stays where it is)"""
+    out = []
+    for p in itertools.permutations(idx):
+        if list(p) == list(idx):
+            continue
+        new = list(top)
+        for slot, src in zip(idx, p):
+            new[slot] = top[src]
+        out.append(new)
+    return out
 
 
 def plant_top_level_copies(rng, v, top):
@@ -643,6 +737,40 @@ def run_dup(ctx, schema):
     ctx.extra["dup_strings"] = len(texts)
 
 
+def run_temporal(ctx, schema, v):
+    """annotations with 2-4 top-level Duration/Delay groups (well formed / malformed for the Duration rule / legal delayed
+    Onset-Offset-Inset groups with a declared Def), compared in every permutation of those groups and in the usual rewrites"""
+    rng = ctx.rng
+    nbase, nrw = (110, 4) if ctx.quick() else (1500, 12)
+    for _ in range(nbase):
+        top, idx, classes = gen_temporal_annotation(rng, v)
+        base = render(rng, top)
+        c0 = codes_of(base, schema)
+        ctx.count("temporal-mix:bases")
+        ctx.count("temporal-mix:groups-%d" % len(idx))
+        if "delayed" in classes and "bad" in classes:
+            ctx.count("temporal-mix:delayed+malformed")
+        for c in set(c0):
+            ctx.count("temporal-mix:base-code:" + c)
+        ctx.case(("rel", base), nontrivial=bool(c0), sample={"base": base, "codes": c0} if c0 and len(base) < 110 and rng.random() < 0.1 else None)
+        for new in top_level_permutations(top, idx):
+            r = rng.random()
+            if r < 0.7:
+                kind, text = "order-top-level", render(rng, new)
+            elif r < 0.85:
+                kind, text = "order-top-level+members", render(rng, [permute_all(rng, n) for n in new])
+            else:
+                kind, text = "order-top-level+respell+spacing", render(rng, new, respell=True, spacing="rand")
+            ctx.count("rewrite:" + kind)
+            ctx.evaluations += 1
+            check_pair(ctx, schema, base, kind, text, cache=c0)
+        for kind, text in rewrites(rng, top, nrw):
+            ctx.count("rewrite:" + kind)
+            ctx.evaluations += 1
+            check_pair(ctx, schema, base, kind, text, cache=c0)
+        ctx.check_time()
+
+
 WS = " \t"
 
 
@@ -684,6 +812,8 @@ def run(ctx):
                          "siblings with permuted members; in ~45% a group — in ~20% one led by a top-level-only tag: Duration/Delay/Onset/Offset/Inset+Def/"
                          "Definition/Event-context — is copied to another depth and the copies are rewritten independently) and rewrites of them (respelled names, blanks around delimiters, permuted "
                          "siblings, combinations); duplicate-rule trees over a 10-tag pool in all top-level permutations; "
+                         "annotations with 2-4 top-level Duration/Delay groups (well formed / extra tag / zero or two inner groups / legal delayed "
+                         "Onset-Offset-Inset groups with a declared Def) in every written order of those groups; "
                          "delimiter/blank strings (exhaustive to length 4/5 + random). Non-trivial = the base annotation has at "
                          "least one error code / at least one duplicate issue / at least one delimiter issue")
     # 1. corpus of known witnesses
@@ -709,6 +839,8 @@ def run(ctx):
             ctx.evaluations += 1
             check_pair(ctx, schema, base, kind, text, cache=c0)
         ctx.check_time()
+    # 2b. several top-level Duration/Delay groups, in EVERY written order of those groups
+    run_temporal(ctx, schema, v)
     # 3. model correspondence on the duplicate rule, 4. on the delimiter scan
     run_dup(ctx, schema)
     run_scan(ctx, schema)
